@@ -69,6 +69,11 @@ def check(ctx: Ctx) -> str:
     s = ast.unparse(rc.node)
     ctx.check("self.vars: dict[str, t.Any] = {}" in s and "self.exported_vars: set[str] = set()" in s and "self.blocks = {k: [v] for k, v in blocks.items()}" in s, "Context:fresh-state", "runtime:Context.__init__", "per-render state", "vars, exported_vars and the block stacks must be fresh objects per context (the template's blocks dict is shared between renders)", rc.loc())
     scoped_revert_rule(ctx, "R5")
+    # `{% set obj.attr = ... %}` is the one statement that stores into an object the template
+    # did not create: the Namespace check (C03.R5) is what keeps it away from the render data
+    from . import c03
+
+    ctx.run_imported("C03", {"R5"}, c03.check)
     return __doc__ or ""
 
 
